@@ -1182,3 +1182,9 @@ pub mod verif_hooks {
 #[cfg(feature = "verif-hooks")]
 #[path = "verif_hooks_conn.rs"]
 pub mod verif_hooks_conn;
+
+/// Verification hooks for the area ReconfUnits (feature `verif-hooks`,
+/// add-only): `BmpTcpIn::run` with read handles on the settings it keeps.
+#[cfg(feature = "verif-hooks")]
+#[path = "verif_hooks_reconfunits.rs"]
+pub mod verif_hooks_reconfunits;
